@@ -21,9 +21,9 @@ from harness.tlaparse import iter_dump_states
 TOK_Q = ["a", " ", "%", "?", "#", "|", "+", "&", "\"", "^", ":", "..", "%41", "wap", "GEMINI-QUERY"]
 TIERS = {
     "quick": dict(tokens=TOK_Q, maxtok=2, shapes=["wapiti", "a b 1", "GEMINI-QUERYx", "URL:a"],
-                  inner=["a", " ", "?", "|", "^", "URL:a", "a b 1", "x:y"], kinds2=["file"],
+                  inner=["a", " ", "%", "?", "|", "^", "wap", "URL:a", "a b 1", "x:y"], kinds2=["file"],
                   views=["G", "GP", "GD", "SG", "H", "HS", "W", "M", "S"], hls=["default", "full"],
-                  full_only_kinds=("zip", "mapdir", "maildir"), hi=[0xFF]),
+                  full_only_kinds=("zip",), hi=[0xFF]),
     "thorough": dict(tokens=TOK_Q + ["=", "'", "<", "b 1", "\\"], maxtok=2,
                      shapes=["wapiti", "a b 1", "GEMINI-QUERYx", "URL:a", "a  2", "x y 10", "URL:a?b", "a%2Fb",
                              "PYGOPHERD-HTTPPROTO-ICONS"],
@@ -190,9 +190,10 @@ def main(chk, replay=None):
             for hl in t["hls"]:
                 sub = cases
                 if hl == "full" and t["full_only_kinds"]:
-                    # quick tier: the full list differs from the shipped one only through ZIP/PYG/exec/TAL;
-                    # run it on the container kinds and on every single-token name
-                    sub = [c for c in cases if c["k"] in t["full_only_kinds"] or c["n"] in t["tokens"] + t["shapes"]]
+                    # quick tier: the full list differs from the shipped one only through ZIP/PYG/exec/TAL/compressed
+                    # files: run it on every archive tree and on the single-token plain files and mailboxes
+                    sub = [c for c in cases if c["k"] in t["full_only_kinds"]
+                           or (c["k"] in ("file", "mbox") and c["n"] in t["tokens"] + t["shapes"])]
                 if hi != t["hi"][0]:
                     sub = [c for c in sub if "^" in c["n"] or "^" in c.get("m", "")]
                 plans.append((hl, t["views"], sub, hi))
